@@ -121,9 +121,10 @@ TRefit ==
        ELSE Reject(IF ~Same THEN "not_reproducible" ELSE "not_separated")
 
 \* anything else (a panic of the code under test) is explained by no action
+\* (on rank-deficient data with valid parameters -- outside the statement -- even that is passed over)
 TOther ==
   /\ e <= Len(Case.ev) /\ Ev.ev \notin {"fit", "predict", "refit"}
-  /\ Reject(Ev.ev)
+  /\ IF NN > 0 /\ ~Full /\ ~Bad THEN Adv /\ UNCHANGED nsep ELSE Reject(Ev.ev)
 
 UsedDev == "sources_scaled_inv_sqrt_n" \in Devs /\ Full /\ ~Bad
            /\ \E q \in 1..Len(Case.ev) : Case.ev[q].ev = "predict"
